@@ -142,6 +142,10 @@ pub fn gen_string_with(rng: &mut Rng, controls: bool) -> String {
         if rng.chance(1, 3) {
             s.push_str(&gen_id(rng));
         }
+        // a lookalike inside a lookalike: whatever a decoder strips or unescapes once must not be stripped twice
+        if rng.chance(1, 4) {
+            s = format!("{}{}", rng.pick(&LOOKALIKES), s);
+        }
         return s;
     }
     let len = match rng.below(20) {
